@@ -272,6 +272,22 @@ void execute(const OpEntry& e, std::uint64_t seed, long p0, long p1, int slot, c
     say("R %ld %ld ok n=%ld fired=%ld h0=%016llx len=%ld nf=0\n", g_run, g_opidx, vrt::g_alloc.count, fired, static_cast<unsigned long long>(r.h), r.len);
     return;
   }
+  if (fault == "huge") {
+    // huge text operands (see vrt::huge_view): one execution, no warm-up, no allocation fault; fa = size index
+    g_phase = "huge";
+    c.huge = 1 + static_cast<int>(fa % 2);
+    c.huge_strings = fb != 0;
+    vrt::g_armed = false;
+    Scratch s;
+    Outcome r = run_once(e, c, seed, p0, p1, &s.os);
+    ++st.execs;
+    char fdesc[32];
+    std::snprintf(fdesc, sizeof fdesc, "huge:%ld", fa % 2);
+    check_outcome(e, r, false, fdesc, st);
+    g_phase = "-";
+    say("R %ld %ld ok n=0 fired=0 h0=%016llx len=%ld nf=0\n", g_run, g_opidx, static_cast<unsigned long long>(r.h), r.len);
+    return;
+  }
   // warm-up: libstdc++ initialises some facilities lazily on first use (locale facets ...), which
   // allocates; run once uncounted so that allocation indices do not depend on process history
   g_phase = "warm";
